@@ -229,6 +229,7 @@ def handle (st : DState) (j : Json) : Except String (DState × Json) := do
     let off ← getNat j "off"
     let x ← getNat j "x"
     let k ← match (← getStr j "kind") with
+      | "netlist" => pure CKind.netlist
       | "library" => pure CKind.library
       | "definition" => pure CKind.definition
       | "instance" => pure CKind.«instance»
